@@ -236,8 +236,8 @@ def run_check(pid, tier, seed, t0):
         # one replay per distinct cause (first of each `what` prefix), at most 5
         seen = set()
         for v in new_violations:
-            sig = v.get("key") or v.get("what", "")[:60]
-            if sig in seen or len(seen) >= 5:
+            sig = v.get("key") or v.get("sig") or v.get("what", "")[:60]
+            if sig in seen or len(seen) >= 3:
                 continue
             seen.add(sig)
             path = write_replay(pid, {"property": pid, "kind": "counterexample", "what": v.get("what"),
